@@ -1363,7 +1363,7 @@ fn main() {
     let fixed = a.extra.get("fixed").map(|v| v != "0").unwrap_or(true);
     let verif_root = a.extra.get("verif").cloned().unwrap_or_else(|| env!("CARGO_MANIFEST_DIR").to_string() + "/..");
     let mut res = RunResult::new("C12", &a);
-    res.rule = "cases = (workspace tree, patch text): patches derived from the simulated workspace so that hunks apply (add/update/move/delete, 1-5 ops, same path re-used, file replaced by a directory), a deep-rollback family (3-7 applying operations followed by one that cannot), then one text-level mutation in half of them (16 kinds), path spellings (./, //, /./, trailing / and /., unicode blanks, NUL), CRLF/LF/mixed/no-final-newline/empty/non-UTF-8 files, lines ending in blanks / tabs / unicode blanks and lines differing only in trailing blanks, plus a malformed stream; non-trivial = at least one op parsed and the workspace non-empty".into();
+    res.rule = "cases = (workspace tree, patch text). Three quarters: patches derived from the simulated workspace so that hunks apply (add/update/move/delete, 1-5 ops, same path re-used, file replaced by a directory), a deep-rollback family (3-7 applying operations followed by one that cannot), then one text-level mutation in half of them (16 kinds), path spellings (./, //, /./, trailing / and /., unicode blanks, NUL), CRLF/LF/mixed/no-final-newline/empty/non-UTF-8 files, lines ending in blanks / tabs / unicode blanks and lines differing only in trailing blanks, plus a malformed stream. One quarter: the same-path family - 3 to 8 sections of one patch on three paths P,Q,R (14 templates: update+move away then re-add then update; move away and another file moved in; P->Q->P; P->Q->R->P; delete/re-add/update; update on both names of a moved file; move away twice; ... and a state-aware random walk), every section written for the simulated workspace at that point, one update in five written for a text the path held EARLIER in the patch (must be refused unless the context is there too), re-added content half of the time a variation of an earlier text, harmless spellings of the same path, one in five with a failing last section (rollback of the whole chain). The generator records the operations it wrote (document paths included); the oracle interprets those. non-trivial = at least one op parsed and the workspace non-empty".into();
     let n = if a.thorough() { 12000 } else { 900 };
     let rt = tokio::runtime::Builder::new_current_thread().enable_all().build().unwrap();
     let mut r = Rng::new(a.seed);
